@@ -1,6 +1,8 @@
 package c15
 
 import (
+	"math"
+	"math/big"
 	"fmt"
 	"net/netip"
 	"strconv"
@@ -232,6 +234,54 @@ func strictInt(s string) (int64, bool) {
 	return v, true
 }
 
+// wideInt accepts [+-]?[0-9]+ of any magnitude. It returns the exact value and
+// the value saturated to the int64 range (the only two readings of a decimal
+// integer that does not fit: compare exactly, or clamp it).
+func wideInt(s string) (exact *big.Int, clamped int64, ok bool) {
+	t := s
+	if t != "" && (t[0] == '+' || t[0] == '-') {
+		t = t[1:]
+	}
+	if t == "" {
+		return nil, 0, false
+	}
+	for i := 0; i < len(t); i++ {
+		if t[i] < '0' || t[i] > '9' {
+			return nil, 0, false
+		}
+	}
+	exact, ok = new(big.Int).SetString(s, 10)
+	if !ok {
+		return nil, 0, false
+	}
+	switch {
+	case exact.Cmp(big.NewInt(math.MaxInt64)) > 0:
+		clamped = math.MaxInt64
+	case exact.Cmp(big.NewInt(math.MinInt64)) < 0:
+		clamped = math.MinInt64
+	default:
+		clamped = exact.Int64()
+	}
+	return exact, clamped, true
+}
+
+func bigPredicate(op string, in, arg *big.Int) bool {
+	c := in.Cmp(arg)
+	switch op {
+	case "eq":
+		return c == 0
+	case "ge":
+		return c >= 0
+	case "gt":
+		return c > 0
+	case "le":
+		return c <= 0
+	case "lt":
+		return c < 0
+	}
+	panic("not numeric: " + op)
+}
+
 func numPredicate(op string, in, arg int64) bool {
 	switch op {
 	case "eq":
@@ -248,6 +298,25 @@ func numPredicate(op string, in, arg int64) bool {
 	panic("not numeric: " + op)
 }
 
+// wideWant is the expectation when an operand is a decimal integer that does
+// not fit in int64: the exact comparison and the comparison of the saturated
+// values are the two defensible readings; the case is asserted when they agree.
+func wideWant(op, in string, aExact *big.Int, aClamped int64) *want {
+	xExact, xClamped, ok := wideInt(in)
+	if !ok {
+		return &want{skip: "numeric operator with a non-integer input (conversion undocumented)"}
+	}
+	exact, clamped := bigPredicate(op, xExact, aExact), numPredicate(op, xClamped, aClamped)
+	if exact != clamped {
+		return &want{skip: "integer beyond the 64-bit range: exact and saturated comparison disagree (conversion undocumented)"}
+	}
+	return &want{
+		alts:  one(exact),
+		text:  fmt.Sprintf("@%s: input %s against parameter %s is %v (exact and saturated comparison agree)", op, xExact, aExact, exact),
+		class: func(o *Obs, reason string) string { return op + ":operand-beyond-int64" },
+	}
+}
+
 func numSpec(cs *Case) *spec {
 	sp := &spec{family: "numeric"}
 	if cs.Arg == "" {
@@ -260,14 +329,23 @@ func numSpec(cs *Case) *spec {
 		return sp
 	}
 	a, ok := strictInt(arg)
+	op := cs.Op
 	if !ok {
-		sp.skipUnit = "numeric operator with a non-integer parameter (conversion undocumented)"
+		aExact, aClamped, wide := wideInt(arg)
+		if !wide {
+			sp.skipUnit = "numeric operator with a non-integer parameter (conversion undocumented)"
+			return sp
+		}
+		// a decimal integer beyond int64: asserted when comparing exactly and clamping agree
+		sp.wantFn = func(in string, _ bool) *want { return wideWant(op, in, aExact, aClamped) }
 		return sp
 	}
-	op := cs.Op
 	sp.wantFn = func(in string, _ bool) *want {
 		x, ok := strictInt(in)
 		if !ok {
+			if _, _, wide := wideInt(in); wide {
+				return wideWant(op, in, big.NewInt(a), a)
+			}
 			return &want{skip: "numeric operator with a non-integer input (conversion undocumented)"}
 		}
 		v := numPredicate(op, x, a)
